@@ -23,7 +23,9 @@
 (* computed with the same AddRes / UpdateRes / RemoveRes operators the     *)
 (* actions use; checks/c04.py verifies that the number of printed edges    *)
 (* equals the number of transitions TLC generated.  The orchestrator walks *)
-(* edge-covering tours through the real client.Storage.                    *)
+(* edge-covering tours through the real client.Storage.  (In the quick     *)
+(* tier only a seeded fraction of the states print their edges, see        *)
+(* Sampled; every state is still explored, checked and its table printed.) *)
 (***************************************************************************)
 EXTENDS ClientsCore, Sequences, FiniteSetsExt, Functions, TLC, Json
 
